@@ -97,3 +97,12 @@ Example C09_example :
   (s_st s, s_ppub s, s_uq s, option_map st_receive_maximum_from_server (s_settings s)) = (Connected, [(1, 2)], [3], Some 1) /\
   forallb (fun o => negb (is_panic (o_res o))) (x_outs (x_cfg 0) h) = true.
 Proof. vm_compute. split; reflexivity. Qed.
+
+(* ---- the UNCONDITIONAL receive-maximum bound: the premise pid_facts of C09_receive_max_given is a conjunct of the engine well-formedness invariant (EngineProofs/FlowWF.v: WF_pid_facts) and the no-panic premise is C11_no_panic; C09_receive_max holds over every event history for components satisfying comps_ok, C09_instance_receive_max for the concrete engine of Engine/Instance.v (only ok_cfg and ok_event remain) ---- *)
+From GM Require Import EngineProofs.WFDefs EngineProofs.FlowWF.
+
+Theorem C09_receive_max : forall (enc : Type) (enc_reset : version -> packet -> resolution -> outcome enc) (enc_call : enc -> N -> N -> outcome (bytes * enc)) (enc_done : enc -> bool) (dec : Type) (dec_init : dec) (dec_feed : version -> N -> dec -> bytes -> dec * list packet * outcome unit) (ores : Type) (ores_reset : ores -> N -> ores) (ores_resolve : ores -> option N -> bytes -> outcome (ores * resolution)) (ires : Type) (ires_reset : ires -> ires) (ires_resolve : ires -> option N -> bytes -> outcome (ires * bytes)) (v_out : option settings -> connect_opts -> resolution -> packet -> outcome unit) (v_in : option settings -> packet -> outcome unit) (cfg : config) (HC : comps_ok enc enc_reset enc_call dec dec_init dec_feed ores ores_reset ores_resolve ires ires_reset ires_resolve v_out v_in), ok_cfg cfg -> forall (o : ores) (i : ires) (h : list event), @ores_inv enc enc_reset enc_call dec dec_init dec_feed ores ores_reset ores_resolve ires ires_reset ires_resolve v_out v_in HC o -> @ires_inv enc enc_reset enc_call dec dec_init dec_feed ores ores_reset ores_resolve ires ires_reset ires_resolve v_out v_in HC i -> @Forall event ok_event h -> @s_st enc dec ores ires (@fst (state enc dec ores ires) (list output) (run enc enc_reset enc_call enc_done dec dec_init dec_feed ores ores_reset ores_resolve ires ires_reset ires_resolve v_out v_in cfg (init enc dec dec_init ores ires o i) h)) = Connected -> exists st : settings, @s_settings enc dec ores ires (@fst (state enc dec ores ires) (list output) (run enc enc_reset enc_call enc_done dec dec_init dec_feed ores ores_reset ores_resolve ires ires_reset ires_resolve v_out v_in cfg (init enc dec dec_init ores ires o i) h)) = @Some settings st /\ @len (N * N) (@s_ppub enc dec ores ires (@fst (state enc dec ores ires) (list output) (run enc enc_reset enc_call enc_done dec dec_init dec_feed ores ores_reset ores_resolve ires ires_reset ires_resolve v_out v_in cfg (init enc dec dec_init ores ires o i) h))) <= st_receive_maximum_from_server st.
+Proof. exact @receive_max. Qed.
+
+Theorem C09_instance_receive_max : forall (cfg : config) (k : resolver_kind) (h : list event), ok_cfg cfg -> @Forall event ok_event h -> @s_st enc Framing.decoder ores Inbound.ires (@fst istate (list output) (i_run cfg (i_init cfg k) h)) = Connected -> exists st : settings, @s_settings enc Framing.decoder ores Inbound.ires (@fst istate (list output) (i_run cfg (i_init cfg k) h)) = @Some settings st /\ @len (N * N) (@s_ppub enc Framing.decoder ores Inbound.ires (@fst istate (list output) (i_run cfg (i_init cfg k) h))) <= st_receive_maximum_from_server st.
+Proof. exact @instance_receive_max. Qed.
